@@ -25,6 +25,17 @@ def setState (c : Conn) (s : Nat) : Conn :=
 theorem stateSet_apply (s : Nat) (c : Conn) : stateSet s c = ⟨.ok (), setState c s, [.onState s]⟩ := by
   simp [stateSet, setState, M.bind_apply]
 
+theorem sendCore_fresh' (env : Env) (m : Msg) (c : Conn)
+    (h1 : m.mtype ≠ mTestRequest) (h4 : m.mtype ≠ mSequenceReset) (hpd : ¬ (m.get? tPossDupFlag).getD "N" = "Y")
+    (hl : frameLatin1 (buildFrame c.sess env.stamp m c.sess.nextOut) = true)
+    (hrows : AllLt c.sess.nextOut c.journal.out) (hs : c.sock = true) :
+    sendCore env m c = ⟨.ok (), sentFresh c (buildFrame c.sess env.stamp m c.sess.nextOut),
+      [.write (buildFrame c.sess env.stamp m c.sess.nextOut)]⟩ := by
+  have hb : buildFrame { c.sess with nextOut := c.sess.nextOut + 1 } env.stamp m c.sess.nextOut
+      = buildFrame c.sess env.stamp m c.sess.nextOut := buildFrame_sess _ _ _ _ _ rfl rfl
+  simp [sendCore, encodeSeq, M.bind_apply, h1, h4, hpd, hb, hl, Journal.persist, insert_append _ _ _ hrows, hs,
+    sentFresh]
+
 theorem sendCore_fresh (env : Env) (m : Msg) (c : Conn)
     (h1 : m.mtype ≠ mTestRequest) (h4 : m.mtype ≠ mSequenceReset) (hpd : m.get? tPossDupFlag = none)
     (hl : frameLatin1 (buildFrame c.sess env.stamp m c.sess.nextOut) = true)
